@@ -1,0 +1,47 @@
+//go:build verif
+// +build verif
+
+package tar
+
+import "context"
+
+// Verification shims (build tag 'verif' only) for the unexported pubsub and bufferPool,
+// so that their wake-up and bound guarantees can be driven directly.
+
+// PubsubVerif wraps the package's pubsub.
+type PubsubVerif struct{ ps *pubsub }
+
+// NewPubsubVerif returns a pubsub that releases all waiters when ctx is cancelled.
+func NewPubsubVerif(ctx context.Context) *PubsubVerif { return &PubsubVerif{newPubsub(ctx)} }
+
+// Emit marks key as visited and wakes its waiters.
+func (p *PubsubVerif) Emit(key string) { p.ps.Emit(key) }
+
+// Wait blocks until key has been emitted or the context is cancelled.
+func (p *PubsubVerif) Wait(key string) { p.ps.Wait(key) }
+
+// BufferPoolVerif wraps the package's bufferPool.
+type BufferPoolVerif struct{ p *bufferPool }
+
+// BufferVerif is a buffer taken from a BufferPoolVerif.
+type BufferVerif struct{ b *buffer }
+
+// NewBufferPoolVerif returns a pool of at most maxBuffers buffers of bufferSize bytes.
+func NewBufferPoolVerif(bufferSize, maxBuffers uint64) *BufferPoolVerif {
+	return &BufferPoolVerif{newBufferPool(bufferSize, maxBuffers)}
+}
+
+// Wait acquires a buffer.
+func (p *BufferPoolVerif) Wait() *BufferVerif { return &BufferVerif{p.p.Wait()} }
+
+// Count returns how many buffers the pool has allocated so far.
+func (p *BufferPoolVerif) Count() int64 { return p.p.count }
+
+// Done returns the buffer to its pool.
+func (b *BufferVerif) Done() { b.b.Done() }
+
+// Len returns the buffer's size.
+func (b *BufferVerif) Len() int { return len(b.b.Data) }
+
+// ResolvePathVerif is resolvePath.
+func ResolvePathVerif(p string) string { return resolvePath(p) }
